@@ -54,18 +54,8 @@ func checkPack(k *K, s []byte, full bool) {
 		prefixes = [][]byte{nil, []byte("x"), []byte("\xff\x00\xaa\x55\x01")}
 	}
 	for _, p := range prefixes {
-		for _, spare := range []int{0, len(s) + 2} {
-			if !full && spare > 0 {
-				continue
-			}
-			dst := withCap(p, spare)
-			if spare > 0 {
-				// garbage in the spare capacity must not leak into the result
-				g := dst[:cap(dst)]
-				for i := len(p); i < len(g); i++ {
-					g[i] = 0xff
-				}
-			}
+		for _, spare := range spareSet((len(s)+3)/4, full) {
+			dst := withCap(p, spare) // garbage in the spare capacity must not leak into the result
 			got := sequtil.DNATo2Bit(dst, s)
 			if len(got) != len(p)+(len(s)+3)/4 {
 				k.Input("seq", s0)
@@ -94,12 +84,14 @@ func checkPack(k *K, s []byte, full bool) {
 		up = append(up, 'A')
 	}
 	for _, p := range prefixes {
-		dst := withCap(p, 0)
-		got := sequtil.DNAFrom2Bit(dst, want)
-		if !bytes.Equal(got[:min(len(p), len(got))], p) || !bytes.Equal(got[min(len(p), len(got)):], up) {
-			k.Input("seq", s0)
-			k.Failf("unpack", "DNAFrom2Bit(dst=%q, pack(%q)) = %q, want dst followed by %q", p, s0, got, up)
-			return
+		for _, spare := range spareSet(len(up), full) {
+			dst := withCap(p, spare)
+			got := sequtil.DNAFrom2Bit(dst, want)
+			if !bytes.Equal(got[:min(len(p), len(got))], p) || !bytes.Equal(got[min(len(p), len(got)):], up) {
+				k.Input("seq", s0)
+				k.Failf("unpack", "DNAFrom2Bit(dst=%q spare=%d, pack(%q)) = %q, want dst followed by %q", p, spare, s0, got, up)
+				return
+			}
 		}
 	}
 	k.Count("pack_checked", 1)
@@ -111,6 +103,7 @@ func init() {
 		Level: "exploration",
 		Rule: "every DNA string over aAcCgGtT up to a length bound, random strings to 10000, dst prefixes with and without (dirty) spare capacity, compared with an independent bit-arithmetic pack/unpack; " +
 			"DNATo2Bit(DNAFrom2Bit(p)) == p for all 256 single bytes and all 65536 byte pairs and random p; Ntoi over all 256 bytes, Iton/Ntoi inverse laws; every byte outside aAcCgGtT must make DNATo2Bit panic (alone and embedded); " +
+			"readers unit: the calls run while reader goroutines read the protected memory, -race build reports any write to it (also one undone before returning); " +
 			"non-trivial = string of length >= 1 / each packed value; distinct by construction in exhaustive scopes",
 		MinEvents: map[string]int64{"pack_checked": 100000, "unpack_pack_checked": 65536 + 256, "ntoi_checked": 256, "panics_observed": 248},
 		Units: []Unit{
@@ -118,6 +111,7 @@ func init() {
 			{Name: "packed", Run: c13Packed},
 			{Name: "random", TShards: 2, Run: c13Random},
 			{Name: "bytes", Run: c13Bytes},
+			{Name: "readers", Race: true, QShards: 2, TShards: 4, Run: c13Readers},
 		},
 	})
 	register(&Property{
@@ -471,7 +465,7 @@ func c14Codons(c *Ctx) {
 			k.Input("x", x)
 			k.Input("y", y)
 			for _, p := range dstPrefixes {
-				dst := withCap(p, r.IntN(2)*50)
+				dst := withCap(p, pick(r, []int{0, 50, 1, 2}))
 				xy := append(append([]byte{}, x...), y...)
 				x0, y0 := append([]byte{}, x...), append([]byte{}, y...)
 				whole := sequtil.Translate(withCap(p, 0), xy)
@@ -720,7 +714,7 @@ func c14Panics(c *Ctx) {
 					bad := pick(r, []byte("NnXx-*. \x00\xc5\xff"))
 					s[3*cod+r.IntN(3)] = bad
 					prefix := bytes.Repeat([]byte("M"), pl)
-					p := expectPanic(func() { sequtil.Translate(withCap(prefix, r.IntN(2)*300), s) })
+					p := expectPanic(func() { sequtil.Translate(withCap(prefix, pick(r, []int{0, 300, 1})), s) })
 					if !p {
 						k.Input("seq", s)
 						k.Input("dst_prefix_len", pl)
